@@ -19,8 +19,9 @@ TRUSTED = [
     "Easter in the spec is Spec.mjb (Meeus/Jones/Butcher), in the model the translated easter.easter (C19 proves them equal on 1583..4099)",
     "proved for the model: every table entry vs the calendar; masks = dates for every year; start/until/count/whole seconds and strict "
     "monotonicity for ALL rules and all seven frequencies; period day sets and advance of the calendar frequencies; the BY filter in calendar "
-    "terms; iter = Spec.occ for DAILY/WEEKLY/MONTHLY/YEARLY with BYMONTH/BYMONTHDAY/BYYEARDAY/plain BYDAY/BYHOUR/BYMINUTE/BYSECOND, defaults, "
-    "COUNT, UNTIL.  NOT proved (covered by correspondence + oracle only): exactness for HOURLY/MINUTELY/SECONDLY, BYWEEKNO, nth BYDAY, BYEASTER, BYSETPOS",
+    "terms; iter = Spec.occ for DAILY/WEEKLY/MONTHLY/YEARLY with BYMONTH/BYMONTHDAY/BYYEARDAY/plain BYDAY/BYHOUR/BYMINUTE/BYSECOND, BYSETPOS "
+    "(not WEEKLY), defaults, COUNT, UNTIL.  NOT proved (covered by correspondence + oracle only): exactness for HOURLY/MINUTELY/SECONDLY, "
+    "BYWEEKNO, nth BYDAY, BYEASTER",
 ]
 ASSUMPTIONS = [
     "aware starts: the model carries tzinfo as an opaque tag; `until` is compared in the frame of dtstart.tzinfo "
